@@ -24,7 +24,7 @@ RULE = ('(a) replies: all strings of length 0..3 (thorough 0..4) over {0,1,2,3,9
         'scope {/a/foo,/a/fo,/a,/,/a/foo/,foo,.,..,none}; non-trivial = listing printed and reply read; distinct = (R5 class, list length, outcome) and '
         '(scope, subset size, outcome)')
 ALPHA = ['0', '1', '2', '3', '9', '-', ',', ' ', '+', 'a']
-EXTRA = ['99999999999', '0-99999999999', '3-1', '1-2-3', '٣', '0,0', '1-2,2', '0-3', '3,2,1,0', '0-0']
+EXTRA = ['-3-1', '-1-0', '0,-2-0', '-0', '1--2', '99999999999', '0-99999999999', '3-1', '1-2-3', '٣', '0,0', '1-2,2', '0-3', '3,2,1,0', '0-0']
 LOCS = ['/a/foo', '/a/foobar', '/a/foo/x', '/a', '/b/foo', '/foo', '/a/foobar/y', '/a/foo-bar/z/w']
 SCOPES = ['/a/foo', '/a/fo', '/a', '/', '/a/foo/', 'foo', '.', '..', 'none']
 TD = scen.HOME_TRASH
